@@ -204,6 +204,8 @@ def run_shard(ctx):
         cases.append(('gen', i))
     for j, sh in enumerate(SHADOW * (4 if ctx.tier == 'quick' else 20)):
         cases.append(('shadow', j))
+    for j in range(300 if ctx.tier == 'quick' else 6000):
+        cases.append(('setop-chain', j))
     for idx, (kind, i) in enumerate(cases):
         if not ctx.mine(idx):
             continue
@@ -214,6 +216,11 @@ def run_shard(ctx):
         if kind == 'gen':
             text, ordered, feats = fedgen.fed_query(r, single=True)
             label = 'generated'
+        elif kind == 'setop-chain':
+            # chains of set operations over duplicate-rich columns, the last two operands sometimes grouped by parentheses
+            text, ops = selgen.setop_chain(r, fedgen.qual_single)
+            ordered, feats, label = False, set(), 'setop-chain' + ('-right-nested' if 'right-nested' in ops else '')
+            acc.count('setop_chain_shapes')
         else:
             label, text, ordered = SHADOW[i % len(SHADOW)]
             feats = set()
@@ -224,14 +231,16 @@ def run_shard(ctx):
         if kind == 'gen' and idx % 7 == 3:
             # the same statement against an integration whose name is not ASCII (lower() and casefold() disagree on it), spelled
             # `außen1` in the statement and `Außen1` in the catalog; the reference still runs the int1 text
-            want_int = 'außen1'
-            plan_text = text.replace('int1.', '`außen1`.')
+            # (or whose name is a fragment of the reserved pseudo-database names `files` / `views`)
+            want_int = ['außen1', 'view', 'file', 'iles', 'außen1'][(idx // 7) % 5]
+            cat_name = want_int.capitalize()
+            plan_text = text.replace('int1.', f'`{want_int}`.')
             kw = copy.deepcopy(kw)
-            kw['integrations'] = [('Außen1' if x == 'int1' else x) if isinstance(x, str) else dict(x, name='Außen1' if x['name'] == 'int1' else x['name'])
+            kw['integrations'] = [(cat_name if x == 'int1' else x) if isinstance(x, str) else dict(x, name=cat_name if x['name'] == 'int1' else x['name'])
                                   for x in kw['integrations']]
             if kw.get('default_namespace') == 'int1':
-                kw['default_namespace'] = 'außen1'
-            desc = dict(desc, renamed='außen1')
+                kw['default_namespace'] = want_int
+            desc = dict(desc, renamed=want_int)
             acc.count('non_ascii_integration_name')
         try:
             tree = parse_sql(plan_text, 'mindsdb')
@@ -267,7 +276,7 @@ def run_shard(ctx):
             db = make_db(st)
             try:
                 try:
-                    n1, r1 = run(db, text)
+                    n1, r1 = run(db, selgen.reference_text(text))
                 except sqlite3.Error as e:
                     acc.count('original_not_executable')
                     break
